@@ -2,6 +2,7 @@ package checks
 
 import (
 	"fmt"
+	"strings"
 
 	"verif/explore"
 	"verif/spaces"
@@ -29,6 +30,44 @@ func treeSpacesMode(r *explore.Run, gramBase int, editMode string, body func(c *
 	corpusEditSpace(r, wrap)
 	byteTreeSpace(r, wrap)
 	everyByteSpace(r, wrap)
+	keywordReplaceSpace(r, 1, wrap)
+	identReplaceSpace(r, 1, wrap)
+	pumpSpace(r, wrap)
+}
+
+// pumpSpace: every string of one or two tokens of an S3 alphabet repeated 2..12 times, bare and inside
+// brackets (many errors / many Bad nodes / deep or long recoveries in one call).
+func pumpSpace(r *explore.Run, body func(c *explore.Ctx, e *Entry, s string)) {
+	for _, a := range spaces.S3 {
+		toks, an := a.Toks, a.Name
+		r.Explore(explore.Options{Space: "S3p/pumped-" + an, MaxDev: -1,
+			Bound: fmt.Sprintf("every string of 1 or 2 of %d tokens repeated 2..12 times, bare, after 'SELECT' / inside '( )' / inside '[ ]'", len(toks))}, func(c *explore.Ctx) {
+			seq := spaces.Seq(c, len(toks), 2)
+			if len(seq) == 0 {
+				return
+			}
+			n := 2 + c.ChooseFree(11)
+			wrapk := c.ChooseFree(4)
+			unit := toks[seq[0]]
+			if len(seq) > 1 {
+				unit += " " + toks[seq[1]]
+			}
+			s := strings.TrimSpace(strings.Repeat(unit+" ", n))
+			switch wrapk {
+			case 1:
+				s = "SELECT " + s
+			case 2:
+				s = "( " + s + " )"
+			case 3:
+				s = "[ " + s + " ]"
+			}
+			c.Input(s)
+			for _, e := range entriesFor(an)[:1] {
+				body(c, e, s)
+			}
+			body(c, EntryByName("ParseStatements"), s)
+		})
+	}
 }
 
 func outcomeTree(c *explore.Ctx, e *Entry, s string, res ParseResult) {
